@@ -1312,9 +1312,20 @@ func (sc *serverConn) handleHeaderFrame(strm *Stream, fr *FrameHeader) error {
 	// fields join the request headers, which is the nearest thing fasthttp's
 	// request has to a place for them.
 	// https://httpwg.org/specs/rfc7540.html#rfc.section.8.1
+	trailerNotLast := false
+
 	if strm.headersFinished {
+		// Without END_STREAM the request is malformed, which is an error of this
+		// stream alone (RFC 7540 8.1.2.6). The block is decoded first, so that
+		// the entries it adds to the HPACK table are kept. The stream is gone
+		// before a CONTINUATION could bring the rest of a block, so that is only
+		// possible for a block that ends in this frame.
 		if !fr.Flags().Has(FlagEndStream) {
-			return NewGoAwayError(ProtocolError, "stream not open")
+			if !fr.Flags().Has(FlagEndHeaders) {
+				return NewGoAwayError(ProtocolError, "stream not open")
+			}
+
+			trailerNotLast = true
 		}
 
 		// Like any header block, a trailer may go on in CONTINUATION frames.
@@ -1481,6 +1492,10 @@ func (sc *serverConn) handleHeaderFrame(strm *Stream, fr *FrameHeader) error {
 		}
 
 		fieldsProcessed++
+	}
+
+	if err == nil && trailerNotLast {
+		err = NewResetStreamError(ProtocolError, "trailer section does not end the stream")
 	}
 
 	return err
